@@ -83,22 +83,36 @@ example : resEq (genRun [] wOk .rs [] 1 [3, 5] []) (callRhs wOk 1 [3, 5]) = true
 example : okC wOkIA = true ∧ resEq (genRun [] wOkIA .py [] 1 [3, 5] []) (callRhs wOkIA 1 [3, 5]) = true := by
   decide +kernel
 
-/-- **The full statement is false of the unchanged code.**  F-C07-3: a variable without a reaction is
-    missing from the returned sequence (Python / TypeScript), and the Rust return type no longer matches. -/
+/-- **The full statement is false of the unchanged code.**  F-C07-3: when no reaction changes any variable the
+    generated function returns `()` / `[()]` instead of one zero per variable (Python: a list holding an empty
+    tuple; TypeScript: not an expression; Rust: the return type does not match). -/
 theorem C07_equiv_full_false :
     ¬ (∀ (c : Content) (L : Lang) (t : Rat) (xs : List Rat), L ≠ .jl → xs.length = c.vars.length →
         genRun [] c L [] t xs [] = callRhs c t xs) := by
   intro h
-  have h1 := h wNoEq .py 0 [3, 1] (by decide) rfl
-  have h2 : resEq (genRun [] wNoEq .py [] 0 [3, 1] []) (callRhs wNoEq 0 [3, 1]) = true := by
-    rw [h1]; cases callRhs wNoEq 0 [3, 1] <;> simp [resEq]
+  have h1 := h wNoEqAtAll .py 0 [3, 1] (by decide) rfl
+  have h2 : resEq (genRun [] wNoEqAtAll .py [] 0 [3, 1] []) (callRhs wNoEqAtAll 0 [3, 1]) = true := by
+    rw [h1]; cases callRhs wNoEqAtAll 0 [3, 1] <;> simp [resEq]
   revert h2
   decide +kernel
 
 theorem C07_missing_equation_witness :
+    resEq (callRhs wNoEqAtAll 0 [3, 1]) (.ok [0, 0]) = true
+    ∧ isErrOther "ReturnNotNumeric" (genRun [] wNoEqAtAll .py [] 0 [3, 1] []) = true
+    ∧ isErrOther "SyntaxError" (genRun [] wNoEqAtAll .ts [] 0 [3, 1] []) = true
+    ∧ isErrOther "ReturnTypeMismatch" (genRun [] wNoEqAtAll .rs [] 0 [3, 1] []) = true
+    ∧ okC wNoEqAtAll = false := by decide +kernel
+
+/-- former F-C07-3 witness (repaired by `fix: a variable that no reaction changes gets the derivative zero in
+    generated model code`): `z` occurs in no reaction while `x` does; the generated function assigns `dzdt = 0`
+    and returns one entry per variable, in the order of the variables, in Python, TypeScript and Rust.  The witness
+    is outside `okC` (the proof of `C07_equiv_partial` covers models where every variable has an equation; this
+    class is covered by the correspondence). -/
+theorem C07_constant_variable_witness :
     resEq (callRhs wNoEq 0 [3, 1]) (.ok [-6, 0]) = true
-    ∧ resEq (genRun [] wNoEq .py [] 0 [3, 1] []) (.ok [-6]) = true
-    ∧ isErrOther "ReturnTypeMismatch" (genRun [] wNoEq .rs [] 0 [3, 1] []) = true
+    ∧ resEq (genRun [] wNoEq .py [] 0 [3, 1] []) (.ok [-6, 0]) = true
+    ∧ resEq (genRun [] wNoEq .ts [] 0 [3, 1] []) (.ok [-6, 0]) = true
+    ∧ resEq (genRun [] wNoEq .rs [] 0 [3, 1] []) (.ok [-6, 0]) = true
     ∧ okC wNoEq = false := by decide +kernel
 
 /-- former F-C07-5 witness (repaired): a parameter defined by an initial assignment is written as a constant
